@@ -101,6 +101,12 @@ def conc_stage(rep, work, vh, tier, seed, replay_sc=None):
         for k, steps in enumerate(CONC_LEADS):
             for qk, n in [("today", 1), ("recent", 1), ("recent", 2), ("find", 1)]:
                 scs.append({"scen": 800000 + len(scs), "src": "lead", "query": qk, "n": n, "steps": [{"a": a, "r": ""} for a in steps]})
+        # a manual status update of the run while it is being closed, at every phase of the compaction (F-06h)
+        # (not before the compaction: while the run is in progress the API refuses the update)
+        for k, steps in enumerate([["ccreate", "update", "cwrite", "cunlink", "findafter"],
+                                   ["ccreate", "cwrite", "update", "cunlink", "findafter"], ["ccreate", "cwrite", "cunlink", "update", "findafter"],
+                                   ["ccreate", "cwrite", "cunlink", "open2", "update", "write2", "findafter"]]):
+            scs.append({"scen": 805000 + k, "src": "update", "query": "find", "n": 1, "steps": [{"a": a, "r": ""} for a in steps]})
         for n in (1, 2, "find"):
             d = os.path.join(work, "concsim%s" % n)
             os.makedirs(d)
@@ -138,7 +144,13 @@ def conc_stage(rep, work, vh, tier, seed, replay_sc=None):
                     if c.startswith("DRIFT"):
                         rep.drift.append("%s scen=%s line=%s rec=%s" % (c, v["scen"], v["line"], json.dumps(v["rec"], sort_keys=True)))
                     else:
-                        rep.violation({"clause": c, "stage": "conc", "query": s.get("query"), "n": s.get("n")},
+                        acts = [x["a"] for x in s.get("steps", [])]
+                        phase = "none"
+                        if "update" in acts:
+                            before = acts[:acts.index("update")]
+                            phase = ("before-the-compaction" if "ccreate" not in before else "copy-created-not-yet-written" if "cwrite" not in before
+                                     else "copy-written-original-not-yet-removed" if "cunlink" not in before else "after-the-compaction")
+                        rep.violation({"clause": c, "stage": "conc", "query": s.get("query"), "n": s.get("n"), "updatePhase": phase},
                                       {"conc_scenario": s, "first_mismatch": v["rec"]})
     relists = sum(1 for line in open(trace) if '"a":"relist"' in line)
     return {"states": states, "transitions": transitions, "runs": runs, "scenarios": len(scs), "events": events, "relists": relists,
